@@ -16,7 +16,7 @@ RULE = ('for each (program, scenario in plain / pause+play / kill / failing / ou
         'there -- complete over that finite set; distinct by (program, scenario, point, occurrence, position); non-trivial when the fault fired')
 ASSUMPTIONS = ['one injected fault per run', 'only the identity of the injected exception is judged; "exception never retrieved" reports for '
                'futures replaced on the EXCEPTED path are diagnostics']
-REQUIRED = ['class/outline', 'pp_pause_siblings', 'pp_kill_siblings', 'pp_completed', 'late_callbacks', 'fired', 'class/user', 'class/listener', 'class/pauseplay', 'class/construct', 'class/hook']
+REQUIRED = ['early_future_checks', 'class/outline', 'pp_pause_siblings', 'pp_kill_siblings', 'pp_completed', 'late_callbacks', 'fired', 'class/user', 'class/listener', 'class/pauseplay', 'class/construct', 'class/hook']
 EXHAUSTIVE = {'quick': True, 'thorough': True}
 BOUNDS = {'quick': '4 programs x 5 scenarios + 2 outlines x 3 scripts, every fault point/occurrence/position', 'thorough': '+ 12 random programs'}
 
@@ -48,7 +48,8 @@ def fault_point(name, pos, proc=None):
     if FAULT is not None and FAULT[0] == name and (
             (FAULT[1] == pos and FAULT[2] == n) or (FAULT[1] == pos + '+' and n >= FAULT[2])):
         # (every other listener fault is an exception that cannot even be turned into text: reporting it must not become a second fault)
-        exc = (UnprintableError if (name.startswith('listener.') or name in ('step', 'callback')) and n % 2 == 0 else ProgError)('X:%s' % key)
+        unprintable = (name.startswith('listener.') or name in ('step', 'callback')) and (n % 2 == 0 or name.endswith(('_finished', '_excepted', '_killed')))
+        exc = (UnprintableError if unprintable else ProgError)('X:%s' % key)
         exc.ctx_hook = next((h for h in reversed(HOOK_STACK) if h in PP_HOOKS), HOOK_STACK[-1] if HOOK_STACK else None)
         exc.proc_terminated = proc.has_terminated() if proc is not None and getattr(proc, '_state', None) is not None else None
         FIRED.append(exc)
@@ -143,6 +144,12 @@ class FaultRun(lifecycle.Run):
     def _make_class(self):
         return programs.program_class(self.case['program'], FaultProg)
 
+    def _release_for_collection(self):
+        # the injected exception is kept for identity checks; its traceback holds the frames (and through them the task) of the
+        # callback it was raised in, which would delay the "exception never retrieved" report of that task beyond the run
+        for exc in FIRED:
+            exc.__traceback__ = None
+
     def execute(self):
         global COUNTS
         COUNTS = {}
@@ -169,6 +176,8 @@ def _scenarios(prog):
         'killpaused': [{'at': 0, 'act': ['pause', 'p0']}, {'at': 'q', 'act': ['kill', 'kq']}],
         # the process is failed from outside (in the middle of a step / at the first quiescent point, e.g. while it waits): a
         # fault in a hook of that transition must still end it EXCEPTED, closed, with the stepping returned
+        # the pause arrives as a message in the middle of a step (its sender holds the reply future)
+        'rpcpause': [{'at': mid, 'act': ['rpc_pause', 'rp']}, {'at': 'q', 'act': ['play']}],
         'fail': [{'at': mid, 'act': ['fail', 'ff']}],
         'failq': [{'at': 'q', 'act': ['fail', 'fq']}],
     }
@@ -252,7 +261,7 @@ def gen_cases(tier, seed):
                                   'fault': [point, pos, occ]})
     for name, prog in sorted(_programs(tier, seed).items()):
         for scen, plan in sorted(_scenarios(prog).items()):
-            base = {'name': name, 'scenario': scen, 'program': prog, 'plan': plan, 'drain': True, 'listener': True}
+            base = {'name': name, 'scenario': scen, 'program': prog, 'plan': plan, 'drain': True, 'listener': True, 'collect_dead_tasks': True}
             FAULT = None
             try:
                 FaultRun(dict(base)).execute()
@@ -423,6 +432,14 @@ def run_case(case):
                 viol.append(V('future-not-raising', 'future-not-raising:' + sig_tail, 'future is %s, expected to raise %s' % (fin['future'], xdesc)))
             if run.proc.exception() is not X:
                 viol.append(V('exception-identity', 'exception-identity:' + sig_tail, 'exception() is not the injected exception object'))
+            entering = ('on_run', 'on_wait', 'on_finish', 'on_kill', 'on_except')
+            if (point in entering and pos == 'before') or (point == 'set_status' and X.ctx_hook in entering):
+                # the state was being entered, the future had not been resolved yet: a waiter that got the future before the run is
+                # told the same as everybody else
+                obs['early_future_checks'] = 1
+                if rec.get('early_future') != ['exception', xdesc]:
+                    viol.append(V('early-future-differs', 'early-future-differs:' + sig_tail, 'the future handed out before the run ended %s, the process '
+                                  'EXCEPTED with %s' % (rec.get('early_future'), xdesc)))
             if fin['closed'] is not True:
                 viol.append(V('not-closed', 'not-closed:' + sig_tail, 'process not closed after ending EXCEPTED'))
             if rec['task'] != ['done']:
@@ -442,11 +459,11 @@ def run_case(case):
         # reported to whoever requested the pause or play; process live and controllable
         reported = False
         for a in rec['acts']:
-            if a['kind'] in ('pause', 'play') and a['ret'][0] == 'raise' and a['ret'][1] == xdesc:
+            if a['kind'] in ('pause', 'play', 'rpc_pause') and a['ret'][0] == 'raise' and a['ret'][1] == xdesc:
                 reported = True
         for n, desc in rec['futs']:
-            if desc == ['exception', xdesc]:
-                reported = True
+            if desc == ['exception', xdesc] or (desc[0] == 'exception' and xdesc[1] in str(desc)):
+                reported = True  # (a reply sent over a communicator may carry the exception wrapped)
         if not reported:
             viol.append(V('pp-fault-not-reported', 'pp-fault-not-reported:' + sig_tail, 'fault in %s was not reported to the requester (acts %s, futures %s)' % (
                 where, [[a['kind'], a['ret']] for a in rec['acts']], rec['futs'])))
@@ -500,7 +517,7 @@ def run_pause_sibling(case):
     global FAULT
     FAULT = tuple(case['fault'])
     try:
-        plan = [e for e in case['plan'] if e['act'][0] == 'pause'] + [{'at': 'q', 'act': ['pause', 'again']}]
+        plan = [e for e in case['plan'] if e['act'][0] in ('pause', 'rpc_pause')] + [{'at': 'q', 'act': ['pause', 'again']}]
         sib = dict(case, plan=plan, drain=False, probe=False)
         try:
             rec = FaultRun(sib).execute().record()
